@@ -156,7 +156,7 @@ def after_call_edges(fn, pats):
     return out
 
 
-def require_after(ctx, rid, fid, first, sink, what=None):
+def require_after(ctx, rid, fid, first, sink, what=None, exclude_first=True):
     """Every path to `sink` passes through a (returning) call of `first`."""
     fn = ctx.fn(fid)
     if fn is None:
@@ -165,4 +165,5 @@ def require_after(ctx, rid, fid, first, sink, what=None):
     if not e:
         ctx.run.error("%s: call %s not found in %s (anchor missing)" % (rid, _patstr(first), fid))
         return False
-    return require_pass(ctx, rid, fid, ("edges", e, "call of " + _patstr(first)), sink, what)
+    ex = {b for b, _t in cfg.find_calls(fn, first)} if exclude_first else frozenset()
+    return require_pass(ctx, rid, fid, ("edges", e, "call of " + _patstr(first)), sink, what, exclude_blocks=ex)
